@@ -1,0 +1,115 @@
+//! Read-only instrumentation for external verification tooling.
+//!
+//! Only compiled with the off-by-default `verif-hooks` feature. Nothing in
+//! here influences the behavior of the solver: the solver only appends to the
+//! event log and the accessors only read solver state.
+
+/// A change to the assignment trail of the solver.
+#[derive(Clone, Debug, PartialEq, Eq)]
+pub enum VerifEvent {
+    /// A variable was assigned `value` at `level` because of clause `reason`.
+    Assign {
+        /// The variable that was assigned.
+        var: u32,
+        /// The value assigned to the variable.
+        value: bool,
+        /// The decision level of the assignment.
+        level: u32,
+        /// The clause the assignment was derived from.
+        reason: u32,
+    },
+    /// All assignments above the given level were undone.
+    UndoUntil(u32),
+    /// The last assignment was undone.
+    UndoLast,
+}
+
+/// The origin of a variable.
+#[derive(Clone, Debug, PartialEq, Eq)]
+pub enum VerifOrigin {
+    /// The root variable.
+    Root,
+    /// A solvable.
+    Solvable(u32),
+    /// A helper variable of the at-most-one encoding of a package.
+    ForbidMultiple(u32),
+}
+
+/// The kind of a clause together with the data stored in it.
+#[derive(Clone, Debug, PartialEq, Eq)]
+pub enum VerifClauseKind {
+    /// The root must be installed.
+    InstallRoot,
+    /// `parent` requires a candidate of a single version set.
+    RequiresSingle {
+        /// The variable of the requiring solvable (or root).
+        parent: u32,
+        /// The version set.
+        version_set: u32,
+    },
+    /// `parent` requires a candidate of one of the version sets of a union.
+    RequiresUnion {
+        /// The variable of the requiring solvable (or root).
+        parent: u32,
+        /// The version set union.
+        union: u32,
+    },
+    /// At-most-one encoding clause of package `name`.
+    ForbidMultiple {
+        /// The package name.
+        name: u32,
+    },
+    /// `parent` constrains `forbidden` through `version_set`.
+    Constrains {
+        /// The variable of the constraining solvable (or root).
+        parent: u32,
+        /// The variable of the forbidden solvable.
+        forbidden: u32,
+        /// The version set of the constraint.
+        version_set: u32,
+    },
+    /// `other` is forbidden because `locked` is locked.
+    Lock {
+        /// The variable of the locked solvable.
+        locked: u32,
+        /// The variable of the forbidden solvable.
+        other: u32,
+    },
+    /// A learnt clause.
+    Learnt,
+    /// `var` is excluded for the reason with the given string id.
+    Excluded {
+        /// The variable of the excluded solvable.
+        var: u32,
+        /// The string id of the reason.
+        reason: u32,
+    },
+}
+
+/// A clause of the clause database.
+#[derive(Clone, Debug, PartialEq, Eq)]
+pub struct VerifClause {
+    /// The kind of the clause.
+    pub kind: VerifClauseKind,
+    /// The literals of the clause as `(variable, positive)` pairs, in the
+    /// order in which the solver visits them.
+    pub literals: Vec<(u32, bool)>,
+    /// For requires clauses: the candidate variables per version set.
+    pub candidates: Vec<Vec<u32>>,
+    /// For learnt clauses: the clauses the clause was derived from.
+    pub learnt_why: Vec<u32>,
+}
+
+/// A dump of the state of the solver after a call to `solve`.
+#[derive(Clone, Debug, Default)]
+pub struct VerifDump {
+    /// All clauses in allocation order; the index is the clause id.
+    pub clauses: Vec<VerifClause>,
+    /// The origin of every variable; the index is the variable id.
+    pub origins: Vec<VerifOrigin>,
+    /// Every change to the assignment trail in the order it happened.
+    pub events: Vec<VerifEvent>,
+    /// The assignment trail at the end of the solve as `(variable, value,
+    /// level, reason)`.
+    pub trail: Vec<(u32, bool, u32, u32)>,
+}
